@@ -18,3 +18,101 @@ Theorem C13_serializer_applied :
     serialize ((k, f) :: r) m = serialize r (fset k v' m).
 Proof. exact serialize_step. Qed.
 Print Assumptions C13_serializer_applied.
+
+(* ---- serialize / Logger.write as a whole (Proofs/OutputSerialize.v) ---- *)
+Require Import Eliot.Model.Prog Eliot.Proofs.OutputProofs Eliot.Proofs.OutputSerialize.
+
+(* distinct declared keys: serialization succeeds iff every declared field is present and
+   its serializer accepts the logged value; the result maps each declared key to its
+   serializer applied ONCE to the logged value and agrees with the message elsewhere *)
+Theorem C13_serialize_spec :
+  forall sr m,
+  NoDup (map fst sr) ->
+  ((exists m', serialize sr m = Ok m') <-> all_fields_ok sr m) /\
+  (forall m', serialize sr m = Ok m' -> serialized_once sr m m').
+Proof. exact serialize_spec. Qed.
+Print Assumptions C13_serialize_spec.
+
+Theorem C13_serialize_err_spec :
+  forall sr m e,
+  NoDup (map fst sr) -> serialize sr m = Err e ->
+  exists pre k f suf,
+    sr = pre ++ (k, f) :: suf /\ all_fields_ok pre m /\
+    ((fget k m = None /\ e = key_error k) \/ (exists v, fget k m = Some v /\ f v = Err e)).
+Proof. exact serialize_err_spec. Qed.
+Print Assumptions C13_serialize_err_spec.
+
+Theorem C13_delivered_once :
+  forall cfg c s m sr m1,
+  NoDup (map fst sr) -> serialize sr m = Ok m1 -> any_added s = true ->
+  logger_write cfg c s m (Some sr) = send c s m1 /\
+  serialized_once sr m m1 /\
+  exists reports,
+    ext (fupdate m1 (globals s) :: reports) s (logger_write cfg c s m (Some sr)) /\
+    (forall k, fget k (globals s) = None -> fget k (fupdate m1 (globals s)) = fget k m1).
+Proof. exact OutputSerialize.C13_delivered_once. Qed.
+Print Assumptions C13_delivered_once.
+
+Theorem C13_logger_write_failure_contained :
+  forall cfg c s m sr e,
+  serialize sr m = Err e ->
+  logger_write cfg c s m (Some sr) =
+    (let s1 := write_traceback cfg c s e in
+     let '(s3, fm) := stamp_here s1 c (VTypeName T_serialization_failure)
+                        (fset K_message (render_of m) []) in
+     send c s3 fm).
+Proof. exact logger_write_failure_contained. Qed.
+Print Assumptions C13_logger_write_failure_contained.
+
+(* on failure the destinations are offered tracebacks, the serialization failure and
+   reports only -- never the message -- and the non-reports are, in order: (the traceback
+   of a raising exception extractor, if one is registered for the exception,) one
+   eliot:traceback, one eliot:serialization_failure *)
+Theorem C13_failure_contained_types :
+  forall cfg c s m sr e,
+  serialize sr m = Err e -> any_added s = true -> fget K_mtype (globals s) = None ->
+  exists l,
+    ext l s (logger_write cfg c s m (Some sr)) /\
+    Forall (fun x => fget K_mtype x = Some (VTypeName T_traceback) \/
+                     fget K_mtype x = Some (VTypeName T_serialization_failure) \/
+                     fget K_mtype x = Some (VTypeName T_destination_failure)) l /\
+    map (fget K_mtype) (nonreports l) =
+      extractor_tb cfg e ++ [Some (VTypeName T_traceback); Some (VTypeName T_serialization_failure)].
+Proof. exact OutputSerialize.C13_failure_contained_types. Qed.
+Print Assumptions C13_failure_contained_types.
+
+(* the eliot:serialization_failure message carries the rendering of the failed message *)
+Theorem C13_failure_message :
+  forall cfg c s m sr e,
+  serialize sr m = Err e -> any_added s = true -> fget K_mtype (globals s) = None ->
+  exists l1 u lv rs,
+    ext (l1 ++ fupdate (stamp u lv (VTypeName T_serialization_failure)
+                          (fset K_message (render_of m) [])) (globals s) :: rs)
+        s (logger_write cfg c s m (Some sr)) /\
+    shape (extractor_tb cfg e ++ [Some (VTypeName T_traceback)]) l1 /\ Forall rep_msg rs.
+Proof. exact OutputSerialize.C13_failure_message. Qed.
+Print Assumptions C13_failure_message.
+
+Theorem C13_failure_contained_exactly :
+  forall cfg c s m sr e,
+  serialize sr m = Err e -> any_added s = true -> fget K_mtype (globals s) = None ->
+  (forall e', first_registered (registry cfg) (mro_of cfg (e_cls e)) <> Some (XRaise e')) ->
+  exists l,
+    ext l s (logger_write cfg c s m (Some sr)) /\
+    map (fget K_mtype) (nonreports l) =
+      [Some (VTypeName T_traceback); Some (VTypeName T_serialization_failure)].
+Proof. exact OutputSerialize.C13_failure_contained_exactly. Qed.
+Print Assumptions C13_failure_contained_exactly.
+
+(* no serializer, no failing destination: the destinations get the caller's dictionary
+   plus the global fields and nothing else changes *)
+Theorem C13_logger_write_caller_untouched :
+  forall cfg c s m,
+  any_added s = true ->
+  flat_map (failure_of (fupdate m (globals s))) (dests s) = [] ->
+  let s' := logger_write cfg c s m None in
+  ext [fupdate m (globals s)] s s' /\
+  heap s' = heap s /\ ctx s' = ctx s /\ tokens s' = tokens s /\ next_uuid s' = next_uuid s /\
+  buffer s' = buffer s /\ ids s' = ids s /\ probes s' = probes s.
+Proof. exact logger_write_caller_untouched. Qed.
+Print Assumptions C13_logger_write_caller_untouched.
